@@ -222,6 +222,10 @@ impl SMw {
                     slock(&w.eff_lists).insert(a.id, ids);
                 }
             }
+            for e in sc.added_by(self.comp) {
+                effects.push(make_effect(w, e));
+                slock(&w.eff_lists).entry(a.id).or_default().push(e.id);
+            }
         }
         for (c, h, follow) in sc.mw_dispatch.iter() {
             if *c == self.comp && *h == hook {
@@ -246,7 +250,12 @@ impl SMw {
             Verdict::Continue => Ok(MiddlewareOp::ContinueAction),
             Verdict::Done => Ok(MiddlewareOp::DoneAction),
             Verdict::Break => Ok(MiddlewareOp::BreakChain),
-            Verdict::Err => Err(StoreError::MiddlewareError("verif-scripted-err".into())),
+            // whatever the variant, an Err is an Err (a hook may well forward one it got itself)
+            Verdict::Err => Err(match (a.id + self.comp) % 4 {
+                0 => StoreError::DispatchError("verif-scripted-err".into()),
+                1 => StoreError::ReducerError("verif-scripted-err".into()),
+                _ => StoreError::MiddlewareError("verif-scripted-err".into()),
+            }),
         }
     }
 }
@@ -362,7 +371,13 @@ impl Selector<St, u64> for SSel {
 // ---------------------------------------------------------------- building stores
 
 fn mk_red(w: &Arc<World>, c: CompId) -> Box<dyn Reducer<St, Act> + Send + Sync> {
-    Box::new(SReducer { w: w.clone(), comp: c })
+    let inner = SReducer { w: w.clone(), comp: c };
+    if c % 2 == 1 {
+        // every other reducer goes through the crate's `FnReducer` wrapper (closure -> Reducer)
+        Box::new(rs_store::FnReducer::from(move |st: &St, a: &Act| inner.reduce(st, a)))
+    } else {
+        Box::new(inner)
+    }
 }
 /// One instance per component id: a builder sequence that names the same middleware twice hands
 /// the *same* `Arc` to the store twice (C17: "add_* appends", also for an instance already there).
